@@ -190,6 +190,7 @@ func (c *Conv) Node(a *ast.Node) (out *gen.Node) {
 	case ast.TypeInExpr:
 		e := a.InExpr()
 		n := gen.NBin("in", c.Node(e.LHS), c.Node(e.RHS))
+		n.Op = string(e.Op) // the label the parser gave the node ("in", however the keyword was spelled)
 		n.P.Tok = c.pos("OpPos", "InExpr", e.OpPos)
 		return n
 	case ast.TypeAssignmentExpr:
